@@ -466,6 +466,11 @@ class Engine:
         self.exc_stack = []
         self._pure_guard = []
         self._assume_safety = False
+        self.index_terms = []
+        self._index_keys = set()
+        self._byte_facts = set()
+        self.segments = {}  # ostream id -> [(producer, appended segment)] in program order on this path
+        self.ctx_mode = "prove"
         self.seq_facts = {}
         self._inst_seen = set()
         self._in_inst = 0
@@ -611,8 +616,28 @@ class Engine:
         except z3.Z3Exception:
             return
 
+    def byte_fact(self, e):
+        k = e.get_id()
+        if k not in self._byte_facts:
+            self._byte_facts.add(k)
+            self.pc.append(z3.And(e >= 0, e < 256))
+
+    def add_index_term(self, t):
+        """a term at which every quantified fact is instantiated (witnesses of all_true/any_true, hints)"""
+        key = t.t.get_id() if is_sym(t) else ("c", t)
+        if key not in self._index_keys:
+            self._index_keys.add(key)
+            self.index_terms.append(t)
+
+    def saturate(self):
+        """instantiate every recorded quantified fact at every registered index term (one round)"""
+        for t in list(self.index_terms):
+            self.instantiate_all(t)
+
     def oblig(self, kind, label, goal, props=None, assume_after=True, fuc=None):
         """emit obligation  PC => goal"""
+        if self.index_terms:
+            self.saturate()
         if isinstance(goal, (list, tuple)):
             goal = V.And(*goal)
         if goal is True:
@@ -647,8 +672,11 @@ class Engine:
         r = s.check()
         if r == z3.sat:
             self.canaries[where] = True
-        else:
+        elif r == z3.unsat:
             self.canaries.setdefault(where, False)
+        else:
+            # satisfiability undecided within the budget: not a proof of vacuity; recorded, retried on other paths
+            self.canaries.setdefault(where, "unknown")
 
     def _solver(self):
         if self._branch_solver is None:
@@ -752,6 +780,9 @@ class Engine:
     # ---------------- quantified facts about sequence elements -----------------
     def register_forall(self, fa):
         over = fa.over
+        if over is None:
+            self.seq_facts.setdefault(0, []).append((fa.fn, False))
+            return
         if isinstance(over, Ref):
             over = self.heap[over.id]["items"]
         if not isinstance(over, SSeq):
@@ -801,6 +832,20 @@ class Engine:
         finally:
             self._in_inst -= 1
 
+    def _guarded_goal(self, f, k):
+        """goal of `forall k. guard(k) => body(k)` at skolem k: guard goes into the path condition first so that
+        facts instantiated at k and sequence-index resolution can use it"""
+        if f.guard is not None:
+            g = f.guard(k)
+            if isinstance(g, SBool):
+                self.pc.append(g.t)
+            elif g is False:
+                return True
+            self.instantiate_all(k)
+            return f.body(k)
+        self.instantiate_all(k)
+        return f.fn(k)
+
     def assume_item(self, f):
         from .contract import ForAll
 
@@ -818,15 +863,26 @@ class Engine:
                     q = self.fresh_int("kq@%s" % label)
                     k = q * f.mod + r
                     mark = len(self.pc)
-                    self.instantiate_all(k)
-                    goal = f.fn(k)
+                    goal = self._guarded_goal(f, k)
                     self.oblig(kind, "%s[k%%%d=%d]" % (label, f.mod, r), goal, props=props, assume_after=False)
+                    del self.pc[mark:]
+            elif f.cases:
+                k = self.fresh_int("k@" + label)
+                conds = f.cases(k)
+                self.oblig(kind, label + "[cases-exhaustive]", V.Or(*conds), props=props, assume_after=False)
+                for ci, cnd in enumerate(conds):
+                    mark = len(self.pc)
+                    if isinstance(cnd, SBool):
+                        self.pc.append(cnd.t)
+                    elif cnd is False:
+                        continue
+                    goal = self._guarded_goal(f, k)
+                    self.oblig(kind, "%s[case%d]" % (label, ci), goal, props=props, assume_after=False)
                     del self.pc[mark:]
             else:
                 k = self.fresh_int("k@" + label)
                 mark = len(self.pc)
-                self.instantiate_all(k)
-                goal = f.fn(k)
+                goal = self._guarded_goal(f, k)
                 self.oblig(kind, label, goal, props=props, assume_after=False)
                 del self.pc[mark:]
             if assume_after:
@@ -1070,6 +1126,14 @@ class Engine:
     def instantiate(self, cls: ClassRef, args, kwargs, node):
         if cls.is_exception():
             return ExcV(cls.name, args)
+        if "int" in cls.bases and cls.find_method("__init__") is None and cls.find_method("__new__") is None:
+            # int subclass without constructor logic (ArchiveTimestamp): the value is the int
+            x = self.unopt(args[0], node) if args else 0
+            if isinstance(x, (int, SInt)) and not isinstance(x, bool):
+                return x
+            if isinstance(x, float):
+                return int(x)
+            raise EngineError("construction of %s from %r" % (cls.name, x))
         ct = self.registry.contract_for("%s:%s" % (cls.module.name, cls.name))
         if ct is not None:
             return self.apply_contract(ct, None, list(args), kwargs, node)
@@ -1089,6 +1153,8 @@ class Engine:
     # ---- modular use of a callee's contract --------------------------------------------------
     def apply_contract(self, ct, fr, args, kwargs, node):
         ctx = self.ctx
+        args = [self.unopt(a, node) for a in args]
+        kwargs = {k: self.unopt(v, node) for k, v in kwargs.items()}
         bound = ct.bind(ctx, args, kwargs)
         tgt = ct.target
         for label, f in ct.eval_requires(ctx, bound):
@@ -1108,7 +1174,17 @@ class Engine:
                 conds.append(None if w is None or w is True else (w.t if isinstance(w, SBool) else (None if w else z3.BoolVal(False))))
             idx = self.decide(conds)
         result = None
+        before = {}
+        for a in list(bound.values()):
+            if isinstance(a, Ref) and self.kind(a) == "ostream":
+                before[a.id] = self.heap[a.id]["out"]
         ct.apply_modifies(ctx, bound)
+        for oid, prev in before.items():
+            cur = self.heap[oid]["out"]
+            if cur is not prev:
+                seg = V.strip_prefix(cur, prev)
+                if seg is not None:
+                    self.segments.setdefault(oid, []).append((tgt, seg))
         if idx > 0:
             rs = rspecs[idx - 1]
             w = rs.when_formula(octx, bound)
@@ -1124,8 +1200,14 @@ class Engine:
                 w = rs.when_formula(octx, bound)
                 if w is not None:
                     self.assume(V.Not(w) if not isinstance(w, bool) else (not w))
-        for kind, label, f, props in ct.eval_ensures(octx, old, bound, result):
-            self.assume_item(f)
+        saved_mode = self.ctx_mode
+        self.ctx_mode = "assume"
+        self._ghost_cache = {}
+        try:
+            for kind, label, f, props in ct.eval_ensures(octx, old, bound, result):
+                self.assume_item(f)
+        finally:
+            self.ctx_mode = saved_mode
         self.event("contract-call", tgt, None, args, kwargs, node, result)
         return result
 
@@ -1140,6 +1222,15 @@ class Engine:
             if self.contract.has_xposts():
                 return True
         return False
+
+    def unopt(self, v, node=None):
+        """use of a maybe-None value where a number is required: TypeError unless it is not None"""
+        from .reclist import OptV
+
+        if isinstance(v, OptV):
+            self.safety(V.Not(v.none) if not isinstance(v.none, bool) else (not v.none), "TypeError", "value-not-None", node)
+            return v.val
+        return v
 
     # ---- abstract mode -----------------------------------------------------------------------
     def opaque_call(self, name, recv, args, kwargs, node):
@@ -1585,7 +1676,17 @@ class Engine:
                 for ln, lv in env.items():
                     if isinstance(lv, Ref) and lv.id == oid:
                         nm = ln
-                if nm is not None and nm in spec.cells and field == "items":
+                if self.heap[oid]["kind"] == "ostream" and field == "out":
+                    # output streams are append-only in the model: the loop can only have extended it
+                    ext = self.fresh_seq("%s.ext@%s" % (self.heap[oid].get("label", "out"), spec.name), "byte", "bytes")
+                    d[field] = V.concat(cur, ext)
+                    L.loop_ext[oid] = ext
+                    self.segments.setdefault(oid, []).append(("loop:" + spec.name, ext))
+                elif self.heap[oid]["kind"] == "reclist" and field == "cols":
+                    from .reclist import havoc_cols
+
+                    d[field] = havoc_cols(self, self.heap[oid], "%s@%s" % (self.heap[oid].get("label", "recs"), spec.name))
+                elif nm is not None and nm in spec.cells and field == "items":
                     d[field] = self.fresh_seq("%s@%s" % (nm, spec.name), spec.cells[nm], "list" if self.heap[oid]["kind"] == "list" else "bytearray")
                 else:
                     d[field] = self.fresh_like(cur, "%s.%s@%s" % (self.heap[oid].get("label", "o%d" % oid), field, spec.name))
@@ -1625,6 +1726,8 @@ class Engine:
             for f in spec.unfold_step(ctx, L):
                 self.assume(f)
             self.cover["loop-body:" + key] = True
+            if kind == "for":
+                self.add_index_term(L.i)
             self.loop_ctx.append(lc)
             try:
                 try:
@@ -1943,6 +2046,12 @@ class Engine:
             items = self.static_items_noforce(it)
         except EngineError:
             items = None
+        if items is None and isinstance(n.elt, ast.Dict) and isinstance(it, RangeV) and not g.ifs and all(isinstance(k, ast.Constant) for k in n.elt.keys) and all(isinstance(v, ast.Constant) for v in n.elt.values):
+            # [{"k": const, ...} for _ in range(n)] : list of records with constant columns
+            from .reclist import const_reclist
+
+            cnt = V.max_(it.stop - it.start, 0)
+            return const_reclist(self, cnt, {k.value: v.value for k, v in zip(n.elt.keys, n.elt.values)})
         if items is None:
             return self._symbolic_pure_comprehension(n, g, it, key)
         out = []
@@ -2095,6 +2204,7 @@ class LoopCtx:
         self.seq = None
         self._elem = None
         self.ghost = {}
+        self.loop_ext = {}
 
     def prepare_iterable(self):
         eng = self.eng
@@ -2113,6 +2223,15 @@ class LoopCtx:
             enum = True
             inner = it.it
             st0 = it.start
+        if isinstance(inner, Ref) and eng.kind(inner) == "reclist":
+            from .reclist import RecElem
+
+            self.n = eng.heap[inner.id]["n"]
+            if enum:
+                self._elem = lambda i: (i + st0, RecElem(inner, i))
+            else:
+                self._elem = lambda i: RecElem(inner, i)
+            return
         seq = eng_seq_view(eng, inner)
         self.seq = seq
         self.n = V.L(seq)
